@@ -25,6 +25,7 @@ package statefulset
 
 // What the regular expression (.*)-([0-9]+)$ extracts from a pod name (assumed behaviour of regexp on the package-level
 // statefulPodRegex, whose pattern is never reassigned): whether it matches, the greedy prefix, the digits.
+//@ globalinit statefulPodRegex: regexp.MustCompile("(.*)-([0-9]+)$")
 //@ spec func reMatch(name string) bool
 //@ spec func reParent(name string) string
 //@ spec func reDigits(name string) string
